@@ -10,12 +10,10 @@ def RangeKindX.isQuantile : RangeKindX → Bool
   | .quantile _ _ => true
   | _ => false
 
-def VecOp.ok (a : VecOp) : Bool := (chosenGrouping a.byPrefix a.bySuffix).isSome
-
 /-- the queries `plan_metric_correct_ext` covers: the selector has a label-rewriting stage (`post` starts with one: it is
     what `splitPre` leaves) or the range aggregation is `quantile_over_time` over `| unwrap`; a plain range function needs
     such a stage (otherwise the query is one of `LogQL.supported`); range a positive whole number of milliseconds; at most 63
-    stream matchers; a vector aggregation has a grouping clause -/
+    stream matchers; any vector aggregation, with or without grouping clause -/
 def supportedX (q : MetricQueryX) : Bool :=
   let r := q.range
   decide ((splitPre r.post).1 = []) &&
@@ -23,7 +21,6 @@ def supportedX (q : MetricQueryX) : Bool :=
    | .lra _ => !r.post.isEmpty
    | .unwrap _ _ => !r.post.isEmpty
    | .quantile _ _ => true) &&
-  (match q.agg with | none => true | some a => a.ok) &&
   decide (r.durNs % 1000000 = 0) && decide (0 < r.durNs) && decide (r.sel.matchers.length ≤ 63)
 
 def shapeNameX (q : MetricQueryX) : String :=
@@ -49,9 +46,6 @@ def planClassX (q : MetricQueryX) : String :=
   let tail := s!"{kindNameX q.range.kind}{if q.range.post.isEmpty then "" else "+stages"}:{shapeNameX q}"
   if supportedX q then s!"proved-ext:{tail}"
   else
-    let why := match q.agg with
-      | some a => if a.ok then "other" else "agg-without-grouping"
-      | none => "other"
-    s!"searched-ext:{why}:{tail}"
+    s!"searched-ext:other:{tail}"
 
 end Qryn.LogQL
